@@ -283,9 +283,57 @@ theorem source_vertex_to_corners_reads_table (S : Surf) (a b : V2Cn) (ha : a = (
 theorem source_vertex_to_vertices_reads_table (S : Surf) (a b : V2Cn) (hb : b = (List.range S.nv).map (vertexToVertices S)) (v : Nat)
     (hv : v < S.nv) : Mouette.Generated.C01Acc.vertexToVertices S a b v = some (vertexToVertices S v) := vertexToVertices_bridge S a b hb v hv
 
+/-- **`_adjF2Cn`** (first write wins in the corner loop of the translated `_compute_connectivity`): a lookup is the first corner of the
+face in the `face_corners` container -/
+theorem source_face_first_corner_table_eq_model (S : Surf) (f : Nat) :
+    dictGet (Mouette.Generated.C01HE.computeConnectivity S).2.2.1 f = faceToFirstCorner S f := computeConnectivity_f2cn S f
+/-- **bridges** `face_to_first_corner`, `face_to_corners` (for a non-empty face), `face_to_faces`, on the `_adjF2Cn` the translated
+`_compute_connectivity` fills -/
+theorem source_face_to_first_corner_eq_model (S : Surf) (f : Nat) :
+    Mouette.Generated.C01Acc.faceToFirstCorner S (Mouette.Generated.C01HE.computeConnectivity S).2.2.1 f = faceToFirstCorner S f :=
+  faceToFirstCorner_bridge S _ (computeConnectivity_f2cn S) f
+theorem source_face_to_corners_eq_model (S : Surf) (f : Nat) (hne : faceOf S f ≠ []) :
+    Mouette.Generated.C01Acc.faceToCorners S (Mouette.Generated.C01HE.computeConnectivity S).2.2.1 f = faceToCorners S f :=
+  faceToCorners_bridge S _ (computeConnectivity_f2cn S) f hne
+theorem source_face_to_faces_eq_model (S : Surf) (f : Nat) :
+    Mouette.Generated.C01Acc.faceToFaces S (Mouette.Generated.C01HE.computeConnectivity S).2.2.1 f = faceToFaces S f :=
+  faceToFaces_bridge S _ f
+
+example : Mouette.Generated.C01Acc.faceToCorners (build 4 [[0, 1, 2], [2, 1, 3]] true)
+    (Mouette.Generated.C01HE.computeConnectivity (build 4 [[0, 1, 2], [2, 1, 3]] true)).2.2.1 1 = some [3, 4, 5] ∧
+    Mouette.Generated.C01Acc.faceToFaces (build 4 [[0, 1, 2], [2, 1, 3]] true)
+    (Mouette.Generated.C01HE.computeConnectivity (build 4 [[0, 1, 2], [2, 1, 3]] true)).2.2.1 1 = some [0] := by decide +kernel
 example : Mouette.Generated.C01Acc.commonEdge (build 4 [[0, 1, 2], [2, 1, 3]] true) [] [] 0 1 = some (1, 2) ∧
     Mouette.Generated.C01Acc.inFaceIndex (build 4 [[0, 1, 2], [2, 1, 3]] true) [] [] 1 3 = some 2 ∧
     Mouette.Generated.C01Acc.inFaceIndex (build 4 [[0, 1, 2], [2, 1, 3]] true) [] [] 0 3 = none := by decide +kernel
+
+/-- **the lazily cached accessors of `SurfaceMesh`** (`boundary_edges`, `interior_edges`, `boundary_vertices`, `interior_vertices`,
+`is_vertex_on_border`, `is_triangular`, `is_quad`: each returns its cache; the lazy guard is the subject of the guard table), read on
+the caches the TRANSLATED compute functions fill, give the model's answers (the vertex set as a set: Python's set order is not fixed) -/
+theorem source_cached_accessors_eq_model {faces : Faces} (nv : Nat) (so : Bool) (hR : ∀ F ∈ faces, ∀ v ∈ F, v < nv) :
+    let S := build nv faces so
+    let ibe := Mouette.Generated.C01Src.computeInteriorBoundaryEdges S
+    let ibv := Mouette.Generated.C01Src.computeInteriorBoundaryVertices S
+    let mt := Mouette.Generated.C01Src.computeMeshType S
+    Mouette.Generated.C01Acc.m_boundaryEdges ibe.2 ibe.1 ibv.1 ibv.2.2 ibv.2.1 mt.1 mt.2 = boundaryEdges S ∧
+    Mouette.Generated.C01Acc.m_interiorEdges ibe.2 ibe.1 ibv.1 ibv.2.2 ibv.2.1 mt.1 mt.2 = interiorEdges S ∧
+    Mouette.Generated.C01Acc.m_interiorVertices ibe.2 ibe.1 ibv.1 ibv.2.2 ibv.2.1 mt.1 mt.2 = interiorVertices S ∧
+    (∀ v, v ∈ Mouette.Generated.C01Acc.m_boundaryVertices ibe.2 ibe.1 ibv.1 ibv.2.2 ibv.2.1 mt.1 mt.2 ↔ v ∈ boundaryVertices S) ∧
+    (∀ v, v < nv → Mouette.Generated.C01Acc.m_isVertexOnBorder ibe.2 ibe.1 ibv.1 ibv.2.2 ibv.2.1 mt.1 mt.2 v = isVertexOnBorder S v) ∧
+    Mouette.Generated.C01Acc.m_isTriangular ibe.2 ibe.1 ibv.1 ibv.2.2 ibv.2.1 mt.1 mt.2 = isTriangular S ∧
+    Mouette.Generated.C01Acc.m_isQuad ibe.2 ibe.1 ibv.1 ibv.2.2 ibv.2.1 mt.1 mt.2 = isQuad S := by
+  intro S ibe ibv mt
+  have h1 : ibe = (interiorEdges S, boundaryEdges S) := source_interior_boundary_edges_eq_model S
+  have h2 : mt = (isTriangular S, isQuad S) := source_mesh_type_eq_model S
+  obtain ⟨hv1, _, hv3, hv4⟩ := source_interior_boundary_vertices_eq_model (faces := faces) nv so hR
+  refine ⟨?_, ?_, ?_, ?_, ?_, ?_, ?_⟩
+  · show ibe.2 = _; rw [h1]
+  · show ibe.1 = _; rw [h1]
+  · exact hv4
+  · exact hv1
+  · exact hv3
+  · show mt.1 = _; rw [h2]
+  · show mt.2 = _; rw [h2]
 
 end acc2
 
